@@ -158,10 +158,13 @@ RulesUserinfo(a, o) ==
     \* rp.Userinfo is told whose claims it expects: claims of another subject are an error, not a value
     <<"C08.flow.userinfo.subject", (a.claim = "other") => o.class # "claims">> }
 
+\* the tokens of cx are meant for two resource servers, cx itself is not in their audience: it is never told that they are active
+InOwnAudience(rp) == rp # "cx"
 RulesIntrospect(a, o) ==
   LET p == <<a.b, a.rp>> IN
-  { <<"C08.flow.introspect.live",   (o.class = "active") => (Live(p) /\ o.sub = sess[p].sub)>>,
-    <<"C08.flow.introspect.served", (Live(p) /\ Confidential(a.rp)) => o.class = "active">> }
+  { <<"C08.flow.introspect.live",     (o.class = "active") => (Live(p) /\ o.sub = sess[p].sub)>>,
+    <<"C08.flow.introspect.audience", (o.class = "active") => InOwnAudience(a.rp)>>,
+    <<"C08.flow.introspect.served",   (Live(p) /\ Confidential(a.rp) /\ InOwnAudience(a.rp)) => o.class = "active">> }
 
 RulesRefresh(a, o) ==
   LET p == <<a.b, a.rp>> IN
